@@ -4,6 +4,7 @@ from . import gfont
 # opcodes (src/inc/Machine.h)
 PUSH_BYTE, PUSH_SHORT = 1, 3
 EQUAL = 19
+LESS_EQ = 23
 NEXT, PUT_GLYPH8, PUT_SUBS8, PUT_COPY, INSERT, DELETE, ASSOC, CNTXT_ITEM = 25, 28, 29, 30, 31, 32, 33, 34
 ATTR_SET, ATTR_SET_SLOT = 35, 38
 PUSH_GLYPH_ATTR_OBS, PUSH_ISLOT_ATTR = 41, 46
@@ -66,6 +67,8 @@ def compile_constraint(con):
         body = [PUSH_GLYPH_ATTR_OBS, GATTR_TEST, 0] + push(con["val"]) + [EQUAL]
     elif con["kind"] == "feat":
         body = [PUSH_FEAT, con["f"] - 1 + FEATPAD[0], 0] + push(con["val"]) + [EQUAL]
+    elif con["kind"] == "userle":
+        body = [PUSH_ISLOT_ATTR, SLAT_USER, 0, 0] + push(con["val"]) + [LESS_EQ]
     elif con["kind"] == "user2":
         body = [PUSH_ISLOT_ATTR, SLAT_USER, 0, 1] + push(con["val"]) + [EQUAL]
     else:
